@@ -142,6 +142,7 @@ def check_cfg(ck, c, rng, n=12):
                 tot = X[:, 0].sum(0) if mode != "SEP" else X[s, 0]
                 near = np.abs(tot - rhocut) < 10 * h
             err = np.abs(g - de[s, i]) - 20 * est - 2e-7 * (1 + np.abs(g))
+            err = np.where(np.isfinite(err), err, np.inf)      # a non-finite derivative is never 'within tolerance'
             err[near] = 0
             if err.max() > worst:
                 worst, where = float(err.max()), (s, i)
@@ -159,6 +160,7 @@ def check_cfg(ck, c, rng, n=12):
                 h = 1e-5 * np.maximum(1e-3, np.abs(rt[which][row]))
                 g, est = fd(Er, 0.0, h)
                 err = np.abs(g - vt[which][row]) - 20 * est - 2e-7 * (1 + np.abs(g))
+                err = np.where(np.isfinite(err), err, np.inf)
                 if which == 0 and rhocut > 0:
                     tot = rt[0].sum(0) if mode != "SEP" else rt[0][row]
                     err[np.abs(tot - rhocut) < 10 * h] = 0
